@@ -46,7 +46,7 @@ def gen_cases(ctx):
         if (i // 4) % 60 == 7:
             pg = sem.pg_empty(cls)
         else:
-            pg = gen.random_pg(rng, cls, n_range=(1, 12) if ctx.tier == "quick" else (1, 20), alphabet=rng.choice([gen.SMALL, gen.WIDE, tuple(range(1, 119))]), p_none=rng.choice([0, 0.3]), p_stereo=0.8, p_change=0.5, p_role=0.5, one_sided_bond_desc=0.3)
+            pg = gen.random_pg(rng, cls, n_range=(1, 12) if ctx.tier == "quick" else (1, 20), alphabet=rng.choice([gen.SMALL, gen.WIDE, tuple(range(1, 119))]), p_none=rng.choice([0, 0.3]), p_stereo=0.8, p_change=0.5, p_role=0.5, one_sided_bond_desc=0.3, max_deg=rng.choice([3, 4, 5, 6, 6]))
             pg = _big_ids(rng, pg)
         yield {"cls": cls, "pg": pg_to_json(pg), "bseed": rng.randrange(1 << 30)}
 
